@@ -204,7 +204,7 @@ func init() {
 			c06.seed, c06.tier = seed, tier
 			c06.exh = gen.Exhaustive()
 			c06.fixed = c06fixed()
-			c06.nRand = map[string]int{"quick": 60000, "thorough": 3000000}[tier]
+			c06.nRand = map[string]int{"quick": 60000, "thorough": 10000000}[tier]
 			return len(c06.fixed) + c06.nRand
 		},
 		Run: c06run,
